@@ -186,6 +186,23 @@ def _fold_returns(returns: list, depth: int, falls_through: bool):
     return result if result is not None else ("const", None)
 
 
+def _splice_stars(t):
+    """f(*(a, b)) is f(a, b): a starred tuple / list display among call arguments is spliced in (after fusion has substituted the element)."""
+    if not isinstance(t, tuple) or not t:
+        return t
+    t = tuple(_splice_stars(x) if isinstance(x, tuple) else x for x in t)
+    if len(t) == 4 and t[0] == "call" and isinstance(t[2], tuple) and any(isinstance(a, tuple) and len(a) == 2 and a[0] == "star" and isinstance(a[1], tuple)
+                                                                       and a[1] and a[1][0] in ("tuple", "list") for a in t[2]):
+        args = []
+        for a in t[2]:
+            if isinstance(a, tuple) and len(a) == 2 and a[0] == "star" and isinstance(a[1], tuple) and a[1] and a[1][0] in ("tuple", "list"):
+                args.extend(a[1][1])
+            else:
+                args.append(a)
+        t = ("call", t[1], tuple(args), t[3])
+    return t
+
+
 def _fuse(c):
     """(B(x) for x in (E(y) for y in Z if p) if q(x))  ->  (B(E(y)) for y in Z if p if q(E(y))): a single-generator comprehension over a
     single-generator generator expression is one comprehension over the inner iterable (map over filter, starmap over filter, ...)."""
@@ -333,6 +350,9 @@ def polarity(t):
     while isinstance(t, tuple):
         if len(t) == 3 and t[0] == "un" and t[1] == "not":
             t, pos = t[2], not pos
+        elif len(t) == 4 and t[0] == "cmp" and t[1] in ("==", "!=", "<") and _len_zero_test(t) is not None:
+            x, emptiness = _len_zero_test(t)          # `len(x) == 0` tests like `not x`, `len(x) != 0` / `len(x) > 0` like `x` (sequences)
+            t, pos = x, (pos if not emptiness else not pos)
         elif len(t) == 4 and t[0] == "cmp" and t[1] in ("!=", "not in", "is not"):
             t, pos = ("cmp", NEGATED_CMP[t[1]], t[2], t[3]), not pos          # a test on `a != b` is the negated test on `a == b`
         elif len(t) == 4 and t[0] == "call" and t[1] == ("global", "bool") and len(t[2]) == 1 and not t[3] and t[2][0][0] != "star":
@@ -341,9 +361,27 @@ def polarity(t):
             t = ("bool", "and", _flat("and", (t[1], polarity_free(t[2]))))       # as a test, `x if c else False` reads like `c and x`
         elif len(t) == 4 and t[0] == "ifexp" and t[2] == ("const", True):
             t = ("bool", "or", _flat("or", (t[1], polarity_free(t[3]))))         # and `True if c else y` like `c or y`
+        elif len(t) == 4 and t[0] == "ifexp" and t[2] == ("const", False):
+            t = ("bool", "and", _flat("and", (negate(t[1]), polarity_free(t[3]))))   # `False if c else y` like `not c and y`
+        elif len(t) == 4 and t[0] == "ifexp" and t[3] == ("const", True):
+            t = ("bool", "or", _flat("or", (negate(t[1]), polarity_free(t[2]))))     # `x if c else True` like `not c or x`
         else:
             break
     return t, pos
+
+
+def _len_zero_test(t):
+    """(x, tests_emptiness) for len(x) == 0 / 0 == len(x) / len(x) != 0 / 0 < len(x); None otherwise."""
+    def ln(u):
+        return u[2][0] if isinstance(u, tuple) and len(u) == 4 and u[0] == "call" and u[1] == ("global", "len") and len(u[2]) == 1 and not u[3] else None
+    a, b = t[2], t[3]
+    if t[1] in ("==", "!="):
+        for u, z in ((a, b), (b, a)):
+            if ln(u) is not None and z == ("const", 0):
+                return ln(u), t[1] == "=="
+    if t[1] == "<" and a == ("const", 0) and ln(b) is not None:
+        return ln(b), False
+    return None
 
 
 def polarity_free(t):
@@ -409,6 +447,7 @@ class FunctionTerms:
         self._seq = 0
         self._last_test: dict[int, Term] = {}
         self._inline_stack: list[dict] = []
+        self._nt_fields: dict = {}
         self._cls_stack: list = [(ref.module, ref.cls) if ref.cls is not None else None]
         self._stmt: ast.stmt | None = None
         env: dict[str, Term] = {}
@@ -549,9 +588,21 @@ class FunctionTerms:
                 return _substitute(fn[2], mapping)
             return ("call", fn, tuple(actual), ())
         if f[1] == "map" and len(args) >= 2 and not any(a[0] == "star" for a in args):
-            it = args[1] if len(args) == 2 else ("call", ("global", "zip"), tuple(args[1:]), ())
+            # itertools.repeat(x) as one of several iterables is the constant x for every element of the others
+            def constant(a):
+                return a[0] == "call" and a[1] == ("global", "itertools.repeat") and len(a[2]) == 1 and not a[3]
+            varying = [a for a in args[1:] if not constant(a)]
+            if not varying:
+                return None
+            it = varying[0] if len(varying) == 1 else ("call", ("global", "zip"), tuple(varying), ())
             elem = ("elem", it, self.uid())
-            actual = [elem] if len(args) == 2 else [("index", elem, ("const", i)) for i in range(len(args) - 1)]
+            actual, k = [], 0
+            for a in args[1:]:
+                if constant(a):
+                    actual.append(a[2][0])
+                else:
+                    actual.append(elem if len(varying) == 1 else ("index", elem, ("const", k)))
+                    k += 1
             return ("comp", "gen", apply(args[0], actual), ((elem, it, ()),))
         if f[1] == "filter" and len(args) == 2:
             it = args[1]
@@ -748,6 +799,15 @@ class FunctionTerms:
         elif isinstance(s, ast.Expr):
             v = self.ev(s.value, env, ctx)
             self.emit("expr", s, ctx, value=v)
+            # `xs.sort(key=k)` on a list built in this function is `xs = sorted(xs, key=k)`
+            c = s.value
+            if isinstance(c, ast.Call) and isinstance(c.func, ast.Attribute) and c.func.attr == "sort" and isinstance(c.func.value, ast.Name) \
+                    and not c.args and c.func.value.id in env:
+                old = env[c.func.value.id]
+                if isinstance(old, tuple) and (old[0] == "list" or (old[0] == "comp" and old[1] == "list") or
+                                               (old[0] == "call" and old[1] in (("global", "list"), ("global", "sorted")))):
+                    base = old[2][0] if old[0] == "call" and old[1] == ("global", "list") and len(old[2]) == 1 else old
+                    env[c.func.value.id] = ("call", ("global", "sorted"), (base,), tuple((k.arg, self.ev(k.value, env, ctx)) for k in c.keywords if k.arg))
         elif isinstance(s, ast.Return):
             v = self.ev(s.value, env, ctx) if s.value is not None else ("const", None)
             if self._inline_stack:
@@ -924,6 +984,13 @@ class FunctionTerms:
                             return self._named_value(value, ctx)
                         return self._global_chain(q)
             base = self.ev(e.value, env, ctx)
+            # a field of a NamedTuple result is its position: structure.all_sorted is structure[1]
+            fields = self._nt_fields.get(base)
+            if fields is None and base[0] == "call" and base[1][0] == "global" and base[1][1].startswith(self.prog.PKG + "."):
+                fields = self.prog.returned_namedtuple(base[1][1])
+            if fields is not None and e.attr in fields:
+                i = fields.index(e.attr)
+                return base[1][i] if base[0] == "tuple" and len(base[1]) == len(fields) else ("index", base, ("const", i))
             if base[0] == "global" and not (base[1].startswith("incomplete_cooperative.") and self.prog.global_value(base[1]) is not None):
                 # attribute of an imported module / class (also for function-local imports)
                 return self._global_chain(base[1] + "." + e.attr)
@@ -963,7 +1030,7 @@ class FunctionTerms:
                       arg_nodes=arg_nodes, kw_nodes=kw_nodes)
             canon = self._canonical_iteration(f, args, kws)
             if canon is not None:
-                return _fuse(canon)
+                return _splice_stars(_fuse(canon))
             # operator.attrgetter("id") / operator.itemgetter(1) are the lambdas `lambda x: x.id` / `lambda x: x[1]`
             if f in (("global", "operator.attrgetter"), ("global", "operator.itemgetter")) and len(args) == 1 and not kws and args[0][0] == "const":
                 lp = ("lparam", "x", self.uid())
@@ -974,6 +1041,18 @@ class FunctionTerms:
             # a lambda (or a small local function) applied directly is its body
             if f[0] == "lambda" and not kws and len(f[1]) == len(args) and not any(a[0] == "star" for a in args):
                 return _substitute(f[2], dict(zip(f[1], args)))
+            # a NamedTuple constructor is the tuple of its fields (positional or by keyword)
+            if f[0] == "global" and f[1].startswith(self.prog.PKG + ".") and not any(a[0] == "star" for a in args):
+                ntf = self.prog.namedtuple_fields(f[1])
+                if ntf is not None and all(k for k, _ in kws):
+                    kd = dict(kws)
+                    if len(args) + len(kd) == len(ntf) and all(n in kd for n in ntf[len(args):]):
+                        tup = ("tuple", tuple(args) + tuple(kd[n] for n in ntf[len(args):]))
+                        self._nt_fields[tup] = ntf
+                        return tup
+            # np.compress(mask, a) / np.extract(mask, a) are a[mask] for a Boolean mask over a 1-D array
+            if f in (("global", "numpy.compress"), ("global", "numpy.extract")) and len(args) == 2 and not kws and is_mask(args[0]):
+                return ("index", args[1], args[0])
             # range(0, n) and range(0, n, 1) are range(n)
             if f == ("global", "range") and not kws and len(args) in (2, 3) and args[0] == ("const", 0) and (len(args) == 2 or args[2] == ("const", 1)):
                 return ("call", f, (args[1],), ())
@@ -1008,7 +1087,12 @@ class FunctionTerms:
                 return ("call", ("global", "numpy." + f[2]), (f[1],) + tuple(args), tuple(kws))
             return t
         if isinstance(e, ast.Subscript):
-            return ("index", self.ev(e.value, env, ctx), self.ev_slice(e.slice, env, ctx))
+            base, idx = self.ev(e.value, env, ctx), self.ev_slice(e.slice, env, ctx)
+            # a[np.nonzero(mask)] / a[np.flatnonzero(mask)] select what a[mask] selects (same elements, same order) when mask is a Boolean mask
+            if isinstance(idx, tuple) and len(idx) == 4 and idx[0] == "call" and idx[1] in (("global", "numpy.nonzero"), ("global", "numpy.flatnonzero")) \
+                    and len(idx[2]) == 1 and not idx[3] and is_mask(idx[2][0]):
+                idx = idx[2][0]
+            return ("index", base, idx)
         if isinstance(e, ast.BinOp):
             l, r = self.ev(e.left, env, ctx), self.ev(e.right, env, ctx)
             if isinstance(e.op, ast.LShift) and l == ("const", 1):
@@ -1022,7 +1106,11 @@ class FunctionTerms:
                 return mask_not(o) if is_mask(o) and o[0] in ("bin", "un") else ("un", "~", o)
             return ("un", UNOPS.get(type(e.op), "?"), self.ev(e.operand, env, ctx))
         if isinstance(e, ast.BoolOp):
-            return ("bool", "and" if isinstance(e.op, ast.And) else "or", tuple(self.ev(v, env, ctx) for v in e.values))
+            vals = [self.ev(v, env, ctx) for v in e.values]
+            # every operand but the last is only tested: `(False if c else x) or y` is `(not c and x) or y`
+            vals = [polarity_free(v) if i < len(vals) - 1 and isinstance(v, tuple) and v[0] == "ifexp" else v for i, v in enumerate(vals)]
+            op = "and" if isinstance(e.op, ast.And) else "or"
+            return ("bool", op, _flat(op, tuple(vals)))
         if isinstance(e, ast.Compare):
             parts = []
             left = self.ev(e.left, env, ctx)
@@ -1080,7 +1168,7 @@ class FunctionTerms:
                 elt = ("tuple", (self.ev(e.key, e2, c2), self.ev(e.value, e2, c2)))
             else:
                 elt = self.ev(e.elt, e2, c2)
-            return _fuse(("comp", kind, elt, tuple(gens)))
+            return _splice_stars(_fuse(("comp", kind, elt, tuple(gens))))
         if isinstance(e, ast.Tuple):
             return ("tuple", tuple(self.ev(x, env, ctx) for x in e.elts))
         if isinstance(e, ast.List):
